@@ -49,6 +49,16 @@ ANN = {
     "union": ("int | None", {"s": "int | None"}),
     "t-call": ("typing.Callable[[int], str]", {"s": "typing.Callable[[int], str]"}),
 }
+
+
+def _factory():
+    class LocalPoint:              # a class defined inside a function (a schema factory): __qualname__ != __name__
+        pass
+    return LocalPoint
+
+
+LocalPoint = _factory()
+ANN["local"] = ("LocalPoint", {"n": [__name__, "LocalPoint"]})
 NAMES = ["a", "b", "c", "x", "y", "value", "name", "count", "flag", "data", "opts", "level", "mode", "host", "port", "path", "items", "extra"]
 
 
@@ -97,7 +107,7 @@ def gen_fields(rng, depth, used_types, self_ok=True):
         elif r < 0.70:
             f = gen_ctype(rng, used_types)
         elif r < 0.80:
-            f = {"k": "virtual"}
+            f = {"k": "virtual", "setter": rng.random() < 0.4}
         else:
             f = {"k": "method", "sig": gen_sig(rng)}
         out.append([nm, f])
@@ -196,6 +206,8 @@ def build_field(f, env):
     if k == "ctype":
         return core.ConfigTypeField(build_ctype(f, env))
     if k == "virtual":
+        if f.get("setter"):
+            return cc.VirtualField(lambda cfg: 1, setter=lambda cfg, v: None)
         return cc.VirtualField(lambda cfg: 1)
     if k == "method":
         ns = dict(env["ns"])
@@ -335,7 +347,8 @@ KIND = {inspect.Parameter.POSITIONAL_ONLY: "posonly", inspect.Parameter.POSITION
 
 def check_one(ctx, res, spec, reqs, pend):
     import cincoconfig as cc
-    env = {"ns": {"typing": __import__("typing"), "DigestValue": __import__("cincoconfig.fields.secure_field", fromlist=["x"]).DigestValue, "Schema": cc.Schema},
+    env = {"ns": {"typing": __import__("typing"), "DigestValue": __import__("cincoconfig.fields.secure_field", fromlist=["x"]).DigestValue, "Schema": cc.Schema,
+                  "LocalPoint": LocalPoint},
            "fns": []}
     case = {"spec": spec}
     try:
